@@ -501,7 +501,7 @@ func (x *Exec) call(a *activation, b *ssa.BasicBlock, i int, in *ssa.Call, fr *f
 	if cc.IsInvoke() {
 		// the receiver was boxed from a library type: the call goes to that type's method
 		if recv := x.val(fr, cc.Value); recv.k == 'I' && recv.dyn != nil {
-			if m := x.c.Prog.LookupMethod(recv.dyn, cc.Method.Pkg(), cc.Method.Name()); m != nil && m.Blocks != nil {
+			if m := x.c.Prog.LookupMethod(recv.dyn, cc.Method.Pkg(), cc.Method.Name()); m != nil && m.Blocks != nil && (m.Pkg == x.c.SLib || m.Pkg == x.c.SCLI) {
 				invoked = m
 				var rv AV
 				if _, isPtr := recv.dyn.Underlying().(*types.Pointer); isPtr {
@@ -1167,12 +1167,23 @@ func (x *Exec) model(a *activation, b *ssa.BasicBlock, i int, in *ssa.Call, call
 
 // modelSort: sort.Stable(adapter) calls adapter.Less zero or more times.
 func (x *Exec) modelSort(a *activation, b *ssa.BasicBlock, i int, in *ssa.Call, args []AV, fr *frame, h *Heap, p pathInfo) bool {
-	mi, ok := in.Call.Args[0].(*ssa.MakeInterface)
-	if !ok {
+	var T types.Type
+	var recv AV
+	if mi, ok := in.Call.Args[0].(*ssa.MakeInterface); ok {
+		T = mi.X.Type()
+		recv = x.val(fr, mi.X)
+	} else if iv := args[0]; iv.k == 'I' && iv.dyn != nil {
+		// the sort.Interface value was boxed elsewhere: its dynamic type travelled with it
+		T = iv.dyn
+		if _, isPtr := T.Underlying().(*types.Pointer); isPtr {
+			recv = AV{k: 'P', tri: 2, obj: iv.obj, what: "ptr " + T.String()}
+		} else {
+			recv = AV{k: 'L', tri: 2, obj: iv.obj, atoms: iv.atoms}
+		}
+	} else {
 		x.gap("sort on an interface value built elsewhere", in.Pos())
 		return false
 	}
-	T := mi.X.Type()
 	var less *ssa.Function
 	ms := x.c.Prog.MethodSets.MethodSet(T)
 	for k := 0; k < ms.Len(); k++ {
@@ -1185,7 +1196,6 @@ func (x *Exec) modelSort(a *activation, b *ssa.BasicBlock, i int, in *ssa.Call, 
 	if less == nil || less.Blocks == nil || less.Pkg != x.c.SLib {
 		return false // a standard sort adapter (Float64Slice, StringSlice): no effect on kinds
 	}
-	recv := x.val(fr, mi.X)
 	// zero calls
 	{
 		f2, h2 := fr.clone(), h.clone()
